@@ -137,7 +137,29 @@ def canon_pkg(r) -> str:
     return text + "\n;; function names\n" + canonical("\n".join(f'"{n}"' for n in names))
 
 
-def do_op(defn, op: str) -> dict:
+def in_thread(fn):
+    """Runs fn() in another caller thread of the same session (started and joined at once:
+    nothing is concurrent) and returns its result."""
+    import threading
+    box: dict = {}
+
+    def target():
+        try:
+            box["r"] = fn()
+        except BaseException as e:  # noqa: BLE001
+            box["e"] = e
+
+    t = threading.Thread(target=target)
+    t.start()
+    t.join()
+    if "e" in box:
+        raise box["e"]
+    return box["r"]
+
+
+def do_op(defn, op: str, thread: bool = False) -> dict:
+    if thread:
+        return in_thread(lambda: do_op(defn, op))
     thunk = {"check": defn.check, "compile_function": getattr(defn, "compile_function", defn.compile),
              "compile": defn.compile}[op]
     o = genv.outcome(thunk)
@@ -528,7 +550,7 @@ def run_case(ch: Choices, params: dict) -> dict:
               "name_shared_across_modules": 0, "nested_shadows_module_level": 0,
               "failing_ops": 0, "ok_ops": 0, "final_round_ops": 0, "reference_forks": 0,
               "self_references": 0, "ops_vs_fresh_reference": 0, "ops_vs_first_occurrence": 0,
-              "repeat_right_after_failure": 0}
+              "repeat_right_after_failure": 0, "ops_from_another_thread": 0}
     # ---- raw history draws (resolved against the pool once it exists)
     n_ops = ch.rng_int(params.get("min_ops", 6), params.get("max_ops", 24), "n_ops")
     if ch.draw(10, "short_history") < 7:
@@ -556,7 +578,8 @@ def run_case(ch: Choices, params: dict) -> dict:
                              "shadow_names": True, "int_helper": True})
         prog = g.module(mistake=mistake, prefix="")   # same names in every module
         try:
-            mod = genv.make_module(f"c11_m{mi}", prog["source"])
+            mod = genv.make_module(("c11_m{}", "guppylang_c11_m{}", "tests.c11_m{}")[mi % 3].format(mi),
+                                   prog["source"])
         except BaseException as e:  # noqa: BLE001 - a definition-time failure is not an op
             log.add("defn-error", mi, type(e).__name__)
             continue
@@ -623,7 +646,10 @@ def run_case(ch: Choices, params: dict) -> dict:
                 probes["repeat_right_after_failure"] += 1
             steps += 1
             mi, name = pool[pi]
-            got = do_op(getattr(mods[mi], name), op)
+            other_thread = again == 1 and steps % 3 == 0    # some ops come from another thread
+            if other_thread:
+                probes["ops_from_another_thread"] += 1
+            got = do_op(getattr(mods[mi], name), op, other_thread)
             text = got.pop("_text", None)
             if (pi, op) not in refs:
                 refs[(pi, op)] = dict(got)      # first occurrence = reference
